@@ -160,7 +160,8 @@ def match_known(known, signature):
 
 def write_replay(prop, res, tier):
     from .engine import run_one
-    os.makedirs(os.path.join(compat.VERIF_ROOT, "replays"), exist_ok=True)
+    rdir = os.environ.get("VERIF_REPLAY_DIR") or os.path.join(compat.VERIF_ROOT, "replays")
+    os.makedirs(rdir, exist_ok=True)
     final = run_one(prop, res["seed"], res["batch"], replay={"swarm": res["swarm"], "ops": res["ops"]},
                     want_ops=True)
     if not final.get("violation") or final["violation"]["signature"] != res["violation"]["signature"]:
@@ -172,7 +173,7 @@ def write_replay(prop, res, tier):
         "original_ops": res.get("original_nops"), "shrink_candidates": res.get("shrink_candidates"),
         "repo": repo_state(), "log": final.get("log", [])[-60:],
     }
-    path = os.path.join(compat.VERIF_ROOT, "replays", f"{prop}-{res['seed']}.json")
+    path = os.path.join(rdir, f"{prop}-{res['seed']}.json")
     with open(path, "w") as f:
         json.dump(doc, f, indent=1)
     return path
@@ -385,8 +386,9 @@ def write_evidence(prop, tier, base_seed, good, herr, plan, cut, st_detail, repo
         "wall_s": round(wall, 2),
         "violations": len(reported),
     }
-    os.makedirs(os.path.join(compat.VERIF_ROOT, "evidence"), exist_ok=True)
-    path = os.path.join(compat.VERIF_ROOT, "evidence", f"{prop}.json")
+    evdir = os.environ.get("VERIF_EVIDENCE_DIR") or os.path.join(compat.VERIF_ROOT, "evidence")
+    os.makedirs(evdir, exist_ok=True)
+    path = os.path.join(evdir, f"{prop}.json")
     with open(path, "w") as f:
         json.dump(ev, f, indent=1, sort_keys=False)
 
